@@ -321,7 +321,7 @@ def main(run):
         # default read-piece size (16 MiB) and default chunker bounds: file sizes around the piece size (code paths that depend on
         # real sizes - thresholds, buffering, more than one read piece per file - are invisible at miniature scale)
         MiB = 1 << 20
-        for k, sizes in enumerate([[16 * MiB + 3, 1_300_000, 0]] if quick else [[16 * MiB - 1, 100], [16 * MiB, 16 * MiB + 3, 0], [2 * 16 * MiB + 5, 7], [16 * MiB + 3, 1_300_000, 0]]):
+        for k, sizes in enumerate([[16 * MiB + 3, 2 * MiB, 1_300_000, 0], [2 * MiB, 300_001]] if quick else [[16 * MiB - 1, 100], [16 * MiB, 16 * MiB + 3, 0], [2 * 16 * MiB + 5, 7], [16 * MiB + 3, 2 * MiB, 1_300_000, 0], [4 * MiB, MiB], [9 * MiB + 4096]]):
             cfg = dict(enc=bool(k % 2), cipher=None, hashing=None, mn=128_000, mx=5_120_000, conc=3, piece=None)
             with harness.scratch() as d:
                 files = {'big%d.bin' % i: content(rng, n, 'rand' if i == 0 else 'rep') for i, n in enumerate(sizes)}
